@@ -369,7 +369,7 @@ FP_CONFIG = {
 }
 FP_CONFIG.update({k: v for k, v in FP_IAUTH.items() if k not in FP_CONFIG})
 CONFIG_TU = ["repo:src/set.c", "repo:src/common.c", "repo:src/bitset.c", "env/config_env.c", "env/core_env.c", "env/libc_models.c"]
-CONFIG_UW = ["set_splay.0:5", "set_first.0:5", "set_clear.0:5", "conf_replace_value:3", "conf_object_cleanup:3", "set_clear:3",
+CONFIG_UW = ["set_splay.0:8", "set_first.0:8", "set_clear.0:8", "conf_replace_value:3", "conf_object_cleanup:3", "set_clear:3",
              "set_dispose_node:3", "set_insert:2", "set_remove:3", "conf_replace_value.0:6", "conf_replace_value.1:6",
              "strcasecmp.0:4", "strcmp.0:4", "strlen.0:4", "strdup.0:4", "free_addrinfo.0:1", "copy_addrinfo:1",
              "string_vector_clear_int.0:4", "conf_set_string_list_value.0:4", "conf_set_string_list_value.1:4", "conf_set_string_list_value.2:4",
@@ -449,4 +449,91 @@ RECIPES["C17"]["jobs"].append(
                         {"_name": "drop_criterion", "VP_R0": "0x3f", "VP_R1": "0x33"}, {"_name": "from_empty", "VP_R0": "0x00", "VP_R1": "0x37"}]},
      "unwind": 14, "unwindset": CONFIG_UW + ["strcmp.0:14", "strcasecmp.0:16", "strlen.0:16", "strcpy.0:16", "boolword.0:8",
                                              "iauth_class_conf_changed.0:4", "iauth_class_conf_changed.1:4", "iauth_class_free_rules.0:4"],
+     "fp_restrict": FP_CONFIG, "timeout": 900})
+
+
+def _parse_splits(thorough):
+    ok = [("str_bare", "a w;", "EXPECT_STRING_A"), ("str_quoted", 'a \\"q\\";', "EXPECT_STRING_A_Q"), ("escape", 'a \\"\\\\\\\\q\\";', "EXPECT_ESCAPE"),
+          ("list_paren", "l (w, w);", "EXPECT_LIST"), ("list_comma", "l w, w\\\\n", "EXPECT_LIST"),
+          ("obj_last_brace", "o { a w; b w };", "EXPECT_OBJ_AB"), ("obj_repeat", "o{a w;};o{b w;};", "EXPECT_OBJ_AB"),
+          ("dup_later_wins", "a w;a w;", "EXPECT_STRING_A_LAST"), ("inaddr", "h w w;", "EXPECT_INADDR"),
+          ("cxx_comment", "a w // q\\\\nb w;", "EXPECT_TWO"), ("c_comment", "a w /* q */; b w\\\\n", "EXPECT_TWO"),
+          ("newline_term", "a w\\\\nb w\\\\n", "EXPECT_TWO")]
+    bad = [("trunc_list", "l (w,"), ("trunc_obj", "o { a w;"), ("trunc_quote", 'a \\"q'), ("trunc_comment", "a w /* q"),
+           ("three_words", "a w w w;"), ("any3", "qqq"), ("any4", "qqqq"), ("name_any", "a q"), ("obj_any", "o { q }")]
+    if thorough:
+        ok += [("list_then_entry", "l w, w\\\\nb w;", "EXPECT_LIST"), ("obj_compact", "o {a w;b w}\\n", "EXPECT_OBJ_AB")]
+        bad += [("any5", "qqqqq"), ("quote_any", 'a \\"qq\\";'), ("list_any", "l (q, q);")]
+    out = []
+
+    def uw(t):
+        n = len(t.replace("\\\\", "\\").replace('\\"', '"'))
+        return max(21, n + 4)
+
+    def depth(t):
+        return 3 if "{" in t or "q" in t else 2
+    for name, t, exp in ok:
+        d = {"_name": "ok_" + name, "VP_TMPL": '"%s"' % t, "EXPECT_OK": None, "VP_UW": uw(t), "VP_DEPTH": depth(t)}
+        if exp == "EXPECT_STRING_A_Q":
+            d["EXPECT_STRING_A"] = None
+            d["QUOTED_PAYLOAD"] = None
+        else:
+            d[exp] = None
+        out.append(d)
+    for name, t in bad:
+        out.append({"_name": "any_" + name, "VP_TMPL": '"%s"' % t, "VP_UW": uw(t), "VP_DEPTH": depth(t)})
+    return out
+
+
+PARSE_UW = CONFIG_UW + [lambda d: "conf_parse_entry:%d" % int(d.get("VP_DEPTH", 3)), "conf_read.0:20", "strcmp.0:6", "ctype_init.0:31", "ctype_init.1:17", "harness.0:90", "vp_fread.0:90",
+                        "memcpy.0:40", "char_vector_reserve.0:8"]
+RECIPES["C14"] = {
+    "units": ["src/config.c", "src/set.c", "src/common.c"],
+    "jobs": [
+        {"name": "parse", "src": ["C14_parse.c", "env/file_env.c"] + CONFIG_TU, "gen": _gen_shim.gen,
+         "splits": {"quick": _parse_splits(False), "thorough": _parse_splits(True)},
+         "unwind": "VP_UW", "unwindset": PARSE_UW, "fp_restrict": FP_CONFIG, "timeout": 900},
+    ],
+}
+
+RECIPES["C14"]["jobs"] = [
+    {"name": "tok", "src": ["C14_tok.c"] + CONFIG_TU, "gen": _gen_shim.gen,
+     "splits": {"quick": [{"VP_LEN": n} for n in (1, 2, 3, 4, 5)], "thorough": [{"VP_LEN": n} for n in range(1, 8)]},
+     "unwind": "VP_LEN + 3", "unwindset": ["ctype_init.0:31", "ctype_init.1:17", "harness.0:12", "harness.1:12", "harness.2:12"],
+     "fp_restrict": FP_CONFIG, "timeout": 900},
+]
+
+
+_VALID = 'a x; l (p, e);\\nh r s\\no { a y; b "z" };\\n// c\\nk v, u\\n'      # no 'w'/'q': those letters mean "symbolic byte" in VP_TMPL
+
+
+def _atomic_splits(thorough):
+    """Every proper prefix of a valid file (peer death / truncated write at every byte), and
+    the file with one byte replaced by a structural character at every position."""
+    raw = _VALID.replace("\\n", "\n").replace('\\"', '"')   # the real bytes
+    def lit(t):
+        return '"' + t.replace("\\", "\\\\").replace('"', '\\"').replace("\n", "\\n") + '"'
+    out = []
+    step = 1 if thorough else 2
+    for k in range(0, len(raw), step):
+        out.append({"_name": "cut%02d" % k, "VP_TMPL": lit(raw[:k]), "SYMBOLIC_PRIOR": None, "VP_UW": len(raw) + 4, "VP_DEPTH": 3})
+    flips = "{}();,\"" if thorough else "{\""
+    for k in range(0, len(raw), 1 if thorough else 3):
+        for ch in flips:
+            if raw[k] == ch:
+                continue
+            t = raw[:k] + ch + raw[k + 1:]
+            out.append({"_name": "flip%02d_%02x" % (k, ord(ch)), "VP_TMPL": lit(t), "SYMBOLIC_PRIOR": None, "VP_UW": len(raw) + 4, "VP_DEPTH": 3})
+    return out
+
+
+RECIPES["C14"]["jobs"].append(
+    {"name": "atomic", "src": ["C14_parse.c", "env/file_env.c"] + CONFIG_TU, "gen": _gen_shim.gen,
+     "splits": {"quick": _atomic_splits(False), "thorough": _atomic_splits(True)},
+     "unwind": "VP_UW", "unwindset": PARSE_UW, "fp_restrict": FP_CONFIG, "timeout": 600})
+
+RECIPES["C16"]["jobs"].append(
+    {"name": "tok", "src": ["C14_tok.c"] + CONFIG_TU, "gen": _gen_shim.gen,
+     "splits": {"quick": [{"VP_LEN": n} for n in (2, 3, 4)], "thorough": [{"VP_LEN": n} for n in range(1, 8)]},
+     "unwind": "VP_LEN + 3", "unwindset": ["ctype_init.0:31", "ctype_init.1:17", "harness.0:12", "harness.1:12", "harness.2:12"],
      "fp_restrict": FP_CONFIG, "timeout": 900})
